@@ -11,7 +11,7 @@ PROP = "C16"
 RULE = ("exhaustive product: declaration sets (1-2 globals, thorough: up to 3, sampled for 3) x quantifier in {none, ?, *, +} x default present/absent x "
         "supply patterns (absent, string, integer, boolean, null, list, empty list, supplied through an outer variable set) x {strict, "
         "lazy}; the program reads every global at block depths 0-3 (stanza, if arm, for body, scan arm) and iterates list-typed ones; "
-        "plus the static rules (redeclare, hide, assign) which must be rejected at load time; caller's variable sets are compared "
+        "plus the static rules (redeclare, hide, assign) which must be rejected at load time, and a shorthand parameter named like a global, which must make the run fail; caller's variable sets are compared "
         "before/after; non-trivial = at least one global declared and execution reached the stanzas or failed in the globals check")
 
 QUANTS = ["one", "opt", "star", "plus"]
@@ -99,6 +99,19 @@ def make_cases(tier):
         for c in A.both_modes("c16-static-" + name, prog, 1, globals_={"G": A.vstr("x")}):
             c["static_rule"] = name
             cases.append(c)
+    # a global can never be hidden: the parameter of an attribute shorthand is a variable definition like any other (not seen by the
+    # static checker, so the run must fail - in both modes - instead of reading one value for the other)
+    body = [A.node(A.var("n")), A.attrn(A.var("n"), A.attr("def", A.string("attr-value")))]
+    hide = {
+        "shorthand-param": (A.file([A.stanza("(module) @_m ", body)], globals_=[A.glob("G")], shorthands=[A.shorthand("def", "G", [A.attr("symbol", A.var("G"))])]), {"G": A.vstr("x")}),
+        "shorthand-param-default": (A.file([A.stanza("(module) @_m ", body)], globals_=[A.glob("G", "one", "dflt")], shorthands=[A.shorthand("def", "G", [A.attr("symbol", A.var("G"))])]), {}),
+        "shorthand-param-list": (A.file([A.stanza("(module) @_m ", body + [A.forin("e", A.var("G"), [A.node(A.var("k"))])])], globals_=[A.glob("G", "star")],
+                                        shorthands=[A.shorthand("def", "G", [A.attr("symbol", A.var("G"))])]), {"G": A.vlist(A.vstr("l"))}),
+    }
+    for name, (prog, glob) in hide.items():
+        for c in A.both_modes("c16-hide-" + name, prog, 1, globals_=glob):
+            c["hide_runtime"] = name
+            cases.append(c)
     return cases
 
 
@@ -119,6 +132,14 @@ def run(tier):
                 V.violation(case["id"], payload, {"observed": o["status"], "static": case["static_rule"]})
             else:
                 stats["static_rejected"] += 1
+            continue
+        if "hide_runtime" in case:
+            nontrivial += 1
+            if o["status"] == "ok":
+                payload["detail"] = "a shorthand parameter named like a global (%s) was accepted and the run succeeded: the global is hidden (or hides the attribute value)" % case["hide_runtime"]
+                V.violation(case["id"] + "-hide", payload, {"observed": "ok", "hide": case["hide_runtime"]})
+            else:
+                stats["hiding_rejected"] = stats.get("hiding_rejected", 0) + 1
             continue
         nontrivial += 1
         if o["status"] in ("panic", "abort", "load_err"):
